@@ -862,3 +862,18 @@ package types
 //@     invariant forall k int :: 0 <= k && k < len(changes) ==> changes[k] != nil
 //@     invariant forall k int :: 0 <= k && k < len(updates) ==> updates[k] != nil && 0 < updates[k].VotingPower && updates[k].VotingPower <= 1152921504606846975
 //@     invariant forall k int :: 0 <= k && k < len(removals) ==> removals[k] != nil && removals[k].VotingPower == 0
+
+// ---------------------------------------------------------------- C12: removals must name members
+// Sum over the first n deletes of the power the address currently holds.
+//@ spec func sumRemoved(deletes []*Validator, vals []*Validator, n int) int = ite(n <= 0, 0, sumRemoved(deletes, vals, n-1) + powerOf(vals, deletes[n-1].Address))
+//@ func verifyRemovals(deletes []*Validator, vs *ValidatorSet) (removed int64, err error)
+//@   for C12
+//@   uses indexOfSticky
+//@   requires wfVals(vs) && (forall i int :: 0 <= i && i < len(deletes) ==> deletes[i] != nil)
+//@   requires forall n int :: 0 <= n && n <= len(deletes) ==> sumRemoved(deletes, vs.Validators, n) <= 4611686018427387904     // removals of distinct members never exceed the total power
+//@   ensures [everyRemovalNamesAMember] err == nil ==> (forall i int :: 0 <= i && i < len(deletes) ==> indexOf(vs.Validators, deletes[i].Address, len(vs.Validators)) >= 0)
+//@   ensures [removedPowerIsTheirSum] err == nil ==> removed == sumRemoved(deletes, vs.Validators, len(deletes))
+//@   loop 1:
+//@     invariant 0 <= iter && iter <= len(deletes)
+//@     invariant removedVotingPower == sumRemoved(deletes, vs.Validators, iter) && 0 <= removedVotingPower
+//@     invariant forall i int :: 0 <= i && i < iter ==> indexOf(vs.Validators, deletes[i].Address, len(vs.Validators)) >= 0
